@@ -11,6 +11,7 @@ import Driver.C19
 import Driver.C15
 import Driver.C14
 import Driver.C12
+import Driver.C01
 open Lean Driver
 
 def dispatch (p : String) (inp impl : Json) : CaseResult :=
@@ -27,6 +28,8 @@ def dispatch (p : String) (inp impl : Json) : CaseResult :=
   | "C15" => C15.handle inp impl
   | "C14" => C14.handle inp impl
   | "C12" => C12.handle inp impl
+  | "C01" => C01.handle inp impl
+  | "C07" => C01.handleC07 inp impl
   | "C03" => Signer.handleC03 inp impl
   | _ => { model := Json.null, spec := false, why := "unknown property " ++ p }
 
